@@ -45,7 +45,8 @@ From Coq Require Import ZArith QArith List Bool.
 From Knut Require Import Model.Imp.Revolut2Files Proofs.ImpProofsFiles.
 From Knut Require Import Model.Str Model.Dec Model.Date Model.Account Model.Ledger Model.Journal
      Model.ImpCommonA Model.ImpCommonB Model.Imp.Revolut2 Model.Imp.Revolut Model.Imp.Wise Model.Imp.Swissquote Model.Imp.Interactivebrokers
-     Spec.TableSpec Spec.ImpSpecA Spec.ImpSpecB Spec.ImpSpecIB Proofs.DecValue Proofs.PairProofs Proofs.ImpProofsB Proofs.ImpProofsIB Proofs.ImpRunB.
+     Spec.TableSpec Spec.ImpSpecA Spec.ImpSpecB Spec.ImpSpecIB Spec.ImpStmtB Proofs.DecValue Proofs.PairProofs Proofs.ImpProofsB Proofs.ImpProofsIB Proofs.ImpRunB
+     Proofs.ImpStdoutB.
 Import ListNotations.
 
 (* ---------------------------------------------------------------- bookings *)
@@ -500,4 +501,33 @@ Print Assumptions C13_interactivebrokers_loop.
 (* rounding loses what the row says: 0.1615 shares are booked as 0.16 *)
 Example C13_interactivebrokers_rounding_witness :
   ibs_num [48;46;49;54;49;53]%Z = Some (mkDec 1615 (-4)) /\ ibs_num2 [48;46;49;54;49;53]%Z = Some (mkDec 16 (-2)).
+Proof. vm_compute. split; reflexivity. Qed.
+
+(* ---------------------------------------------------------------- executable statement-level forms *)
+(* As C13_interactivebrokers_stdout for the other importers of the group: Spec/ImpStmtB.v defines, from
+   the row readings of Spec/ImpSpecB.v (X_wf_row, X_fact, X_legs, X_text), the realisation of bookings as
+   posting pairs and the shared printer -- not from the importer model -- the journal text
+   X_statement_output the property prescribes for the records of a well-formed statement (None for any
+   other list of records).  The command prints exactly that text.  ./check C13 evaluates the extracted
+   X_statement_output on the records of every generated well-formed statement and compares it with
+   the standard output of the binary (drv_c13b.ml, verdict `spec`). *)
+
+(* revolut2: the header record, then well-formed rows (r2_statement_wf); one transaction per
+   booking row in file order, then the assertions of the closing balances (r2s_closings: per day
+   and currency with a booking row the Balance of the last such row) ordered by day, then by the
+   name of the currency (r2s_balances) *)
+Theorem C13_revolut2_stdout : forall aflag fflag acct feeacct recs,
+  account_flag aflag = AAcc acct -> account_flag fflag = AAcc feeacct ->
+  r2_statement_wf recs = true ->
+  exists out, r2_statement_output acct feeacct recs = Some out /\
+    run_revolut2 aflag fflag (map CRec recs) = mkRun out SOk.
+Proof. exact revolut2_stdout. Qed.
+Print Assumptions C13_revolut2_stdout.
+
+(* the header and the row of C13_revolut2_row_wf: one transaction with a fee booking, one assertion *)
+Example C13_revolut2_statement_wf :
+  let row := [[67]; [67]; []; [50;48;50;48;45;48;55;45;48;49;32;49;48;58;48;48;58;48;48]; [97];
+              [45;49;54;46;57;53]; [49;46;48;48]; [67;72;70]; [67]; [55;55;57;46;54;53]]%Z in
+  r2_statement_wf [r2s_header; row] = true /\
+  length (r2s_directives [s_Assets; [82]%Z] [s_Expenses; [70]%Z] [row]) = 2%nat.
 Proof. vm_compute. split; reflexivity. Qed.
